@@ -135,7 +135,12 @@ Fixpoint model_run (s : st) (paused : bool) (acts : list act) (obs : list pobs) 
               let finite := match tmo with Some _ => true | None => false end in
               let '(r, s', _) := poll finite s (sched_for tmo s send pending du spins) in
               match res_obs r with
-              | Some o' => if pobs_eqb o o' then model_run s' paused rest obs' else None
+              | Some o' =>
+                  (* on a tty that has hung up a read answers 0 or EIO (both were observed on this
+                     kernel): quit error and i/o error are not told apart then *)
+                  let is_err x := match x with OQ | OE => true | _ => false end in
+                  if pobs_eqb o o' || (hup s && is_err o && is_err o')
+                  then model_run s' paused rest obs' else None
               | None => None
               end
           end
